@@ -16,8 +16,18 @@ THEOREMS = [
     (M, "C01.walk_lossless_po", "po: same"),
     (M, "C01.fluent_lossless", "fluent: under BodyContract (spans increasing, disjoint, inside the text) the walk is lossless"),
     (M, "C01.localizable_is_filter", "the localizable-only view is exactly the entity and junk entries of the full view"),
-    (M, "C01.key_inside", "every entity's key span lies inside its own span"),
+    (M, "C01.fluent_localizable_is_filter", "fluent: the localizable-only view is the entity and junk entries of the full view"),
+    (M, "C01.key_inside", "every entity's key span lies inside its own span (all five regex formats)"),
 ]
+LEVEL_TEXT = ("Lean 4 theorems, for ALL texts with no length bound: the walk of each of the five regex parsers terminates, its entries tile "
+              "the text and their concatenation is the input (DTD: minus a leading BOM); the localizable view is the entity+junk filter; "
+              "entity key spans lie inside the entity; the Fluent walk is lossless under the monitored span contract of fluent.syntax. "
+              "The theorems are stated over regexes regenerated from /repo on every run, so a regex edit re-proves or breaks them; the "
+              "hand-written control-flow model is tied to the Python by bounded-exhaustive token sequences and random texts")
+LEVEL_NOTE = ("trusted: Lean kernel; Rx = CPython re on the audited subset (validated every run); translator; hand-written getNext/walk "
+              "models (correspondence); fluent.syntax body spans are an input with a monitored contract; value spans (ValInside) are "
+              "checked by the oracle only; texts with carriage returns are outside the property")
+TECHNIQUE = "Lean 4 proof (progress + tiling invariant over regenerated regexes) + differential correspondence with the Python parsers"
 PARTIAL = [
     "fluent_lossless is conditional on the contract of the external fluent.syntax parser (monitored on every run)",
 ]
